@@ -759,6 +759,9 @@ package raft
 //@              (req.LastLogIndex == lastEntryIndex(r) && req.LastLogTerm == lastEntryTerm(r)) ||
 //@              (r.logs.has[req.LastLogIndex] && r.logs.ent[req.LastLogIndex].Term == req.LastLogTerm)
 //@   at call (*deferError).Error#1 assert restore_request_has_shutdown_escape: future.ShutdownCh == r.shutdownCh && sent(r.fsmMutateCh) == old(sent(r.fsmMutateCh)) + 1
+//@   at call SnapshotStore.Create#1 assert stamped_with_the_snapshots_own_index_and_term: arg1 == req.LastLogIndex && arg2 == req.LastLogTerm && arg4 == reqConfigurationIndex
+//@   at call SnapshotSink.Close#1 assert whole_stream_received: n == req.Size
+//@   at call io.Copy#1 assert spills_the_request_body_into_the_new_sink: cast(arg0, SnapshotSink) == sink
 
 // ---------------------------------------------------------------------------
 // Leader append (C04 leader side, C05 self-match, C03 store-before-ack, C08 index assignment)
@@ -888,6 +891,11 @@ package raft
 //@   modifies removals
 //@   ensures  counted: removals == old(removals) + 1
 
+//@ ghostvar jsonEncodeErrors int
+//@ extern (*encoding/json.Encoder).Encode(e, v)
+//@   modifies jsonEncodeErrors
+//@   ensures  counted: (result != nil) == (jsonEncodeErrors == old(jsonEncodeErrors) + 1) && (result == nil) == (jsonEncodeErrors == old(jsonEncodeErrors))
+
 //@ spec func metaLess(a *fileSnapshotMeta, b *fileSnapshotMeta) bool =
 //@   a.Term < b.Term || (a.Term == b.Term && (a.Index < b.Index || (a.Index == b.Index && a.ID < b.ID)))
 
@@ -904,11 +912,25 @@ package raft
 //@   ensures  transitive: metaLess(a, b) && metaLess(b, c) ==> metaLess(a, c)
 //@   ensures  total: (a.Term != b.Term || a.Index != b.Index || a.ID != b.ID) ==> metaLess(a, b) || metaLess(b, a)
 
-//@ func (f *FileSnapshotStore) getSnapshots
-//@   trusted directory listing through os.ReadDir/json; assumed: only readable, supported, non-temporary snapshots, newest first (sort.Sort(sort.Reverse(...)) with the Less verified above)
+// the directory scan: only directories whose name does not end in the temporary suffix are read, only
+// readable metadata of a supported version is kept, and the result is ordered newest first (assumed
+// contract of sort.Sort for snapMetaSlice: a permutation ordered by metaLess, against which Less is verified)
+//@ sortorder snapMetaSlice metaLess
+//@ uf strHasSuffix(string, string) bool
+//@ extern strings.HasSuffix(s, suffix)
 //@   modifies nothing
+//@   ensures  spec: result == strHasSuffix(s, suffix)
+
+//@ func (f *FileSnapshotStore) getSnapshots
+//@   requires nonnil: f != nil && f.logger != nil
+//@   modifies jsonErrors, boxes(), allof("H.fileSnapshotMeta."), allof("H.SnapshotMeta."), allof("E.uint8."), allof("E.Server."), allof("H.os.File.")
 //@   ensures  nonnil: result1 == nil ==> forall k int :: 0 <= k && k < len(result0) ==> result0[k] != nil
 //@   ensures  newest_first: result1 == nil ==> forall a int, b int :: 0 <= a && a < b && b < len(result0) ==> !metaLess(result0[a], result0[b])
+//@   ensures  nothing_removed: removals == old(removals) && renames == old(renames)
+//@   at call (*FileSnapshotStore).readMeta#1 assert temporary_directories_are_skipped: !strHasSuffix(arg1, tmpSuffix) && arg1 == dirName
+//@   at call strings.HasSuffix#1 assert tests_the_directory_name: arg0 == dirName && arg1 == tmpSuffix
+//@   loop 1 invariant kept_entries_are_readable: forall k int :: 0 <= k && k < len(snapMeta) ==> snapMeta[k] != nil
+//@   loop 1 invariant counters: removals == old(removals) && renames == old(renames)
 
 //@ func (f *FileSnapshotStore) List
 //@   requires nonnil: f != nil && f.logger != nil
@@ -927,11 +949,13 @@ package raft
 //@ func (s *FileSnapshotSink) finalize
 //@   requires nonnil: s != nil && s.buffered != nil && s.stateFile != nil && s.stateHash != nil
 //@   ensures  state_synced: result == nil && !s.noSync ==> fileSynced[s.stateFile] && fsyncs == old(fsyncs) + 1
+//@   ensures  failed_flush_is_reported: result == nil ==> ioErrors == old(ioErrors)
 //@   ensures  nothing_visible: renames == old(renames)
 
 //@ func (s *FileSnapshotSink) writeMeta
 //@   requires nonnil: s != nil
 //@   ensures  meta_synced: result == nil && !s.noSync ==> fsyncs == old(fsyncs) + 1
+//@   ensures  failed_encode_or_flush_is_reported: result == nil ==> ioErrors == old(ioErrors) && jsonEncodeErrors == old(jsonEncodeErrors)
 //@   ensures  state_sync_kept: forall g *os.File :: old(fileSynced[g]) ==> fileSynced[g]
 //@   ensures  nothing_visible: renames == old(renames)
 
@@ -942,6 +966,7 @@ package raft
 //@   ensures  idempotent: old(s.closed) ==> result == nil && renames == old(renames) && fsyncs == old(fsyncs)
 //@   ensures  nil_means_durable_and_visible: result == nil && !old(s.closed) ==> renames == old(renames) + 1 && (s.noSync || fsyncs >= old(fsyncs) + 3)
 //@   ensures  at_most_one_rename: renames <= old(renames) + 1
+//@   ensures  nil_means_nothing_failed_to_reach_the_files: result == nil && !old(s.closed) ==> ioErrors == old(ioErrors) && jsonEncodeErrors == old(jsonEncodeErrors)
 
 //@ func (s *FileSnapshotSink) Cancel
 //@   requires nonnil: s != nil && s.logger != nil && s.buffered != nil && s.stateFile != nil && s.stateHash != nil
@@ -1154,6 +1179,7 @@ package raft
 //@   ensures  loss_announced_last: lastsent(r.leaderCh) == false
 //@   at call (*Raft).setupLeaderState#1 assert gain_announced_first: lastsent(r.leaderCh) == true && sent(r.leaderCh) == old(sent(r.leaderCh)) + 1
 //@   at call (*Raft).setupLeaderState#1 assert at_most_one_gain_message: notify != nil ==> sent(notify) <= old(sent(notify)) + 1 && (sent(notify) == old(sent(notify)) + 1 ==> lastsent(notify) == true)
+//@   at call (*Raft).setupLeaderState#1 assert gain_message_skipped_only_on_shutdown: notify != nil && sent(notify) == old(sent(notify)) ==> received(r.shutdownCh) == old(received(r.shutdownCh)) + 1
 
 // the deferred step-down cleanup of runLeader
 //@ func (r *Raft) runLeader$1
@@ -1162,6 +1188,7 @@ package raft
 //@   localonly
 //@   ensures  loss_announced_last: lastsent(r.leaderCh) == false && sent(r.leaderCh) == old(sent(r.leaderCh)) + 1
 //@   ensures  at_most_one_loss_message: notify != nil ==> sent(notify) <= old(sent(notify)) + 1 && (sent(notify) == old(sent(notify)) + 1 ==> lastsent(notify) == false)
+//@   ensures  loss_message_skipped_only_on_shutdown: notify != nil && sent(notify) == old(sent(notify)) ==> received(r.shutdownCh) == old(received(r.shutdownCh)) + 1
 //@   ensures  leader_state_cleared: r.leaderState.inflight == nil && r.leaderState.notify == nil && r.leaderState.commitment == nil && r.leaderState.replState == nil
 //@   ensures  own_leadership_no_longer_advertised: !(r.leaderAddr == r.localAddr && r.leaderID == r.localID) || (r.localAddr == "" && r.localID == "")
 //@   at call (*deferError).respond#1 assert inflight_answered_leadership_lost: arg1 == ErrLeadershipLost
@@ -1211,6 +1238,7 @@ package raft
 //@   at call updateLastAppended#* assert match_only_from_successful_response: resp.Success && resp.Term <= req.Term
 //@   at call (*Raft).handleStaleTerm#1 assert newer_term_stops_replication: resp.Term > req.Term
 //@   at call (*followerReplication).setLastContact#1 assert contact_only_from_a_current_term_response: resp.Term <= req.Term
+//@   at call hclog.Logger.Warn#1 assert probes_back_one_entry_at_a_time: !resp.Success && (resp.LastLog < MaxUint64 ==> s.nextIndex == max(min(req.PrevLogEntry, resp.LastLog + 1), 1))
 
 //@ func (r *Raft) sendLatestSnapshot
 //@   requires nonnil: r != nil && s != nil && r.trans != nil && r.logger != nil && r.snapshots != nil && s.commitment != nil
@@ -1367,13 +1395,13 @@ package raft
 
 //@ ghostvar jsonErrors int
 //@ extern (*encoding/json.Decoder).Decode(d, v)
-//@   modifies jsonErrors, boxes(), allof("H.fileSnapshotMeta."), allof("H.SnapshotMeta."), allof("E.")
+//@   modifies jsonErrors, boxes(), allof("H.fileSnapshotMeta."), allof("H.SnapshotMeta."), allof("E.uint8."), allof("E.Server.")
 //@   ensures  counted: (result != nil) == (jsonErrors == old(jsonErrors) + 1) && (result == nil) == (jsonErrors == old(jsonErrors))
 
 // readMeta: metadata is handed out only if the decoder reported success (what the bytes mean is not modelled)
 //@ func (f *FileSnapshotStore) readMeta
 //@   requires nonnil: f != nil
-//@   modifies jsonErrors, boxes(), allof("H.fileSnapshotMeta."), allof("H.SnapshotMeta."), allof("E."), allof("H.os.File.")
+//@   modifies jsonErrors, boxes(), allof("H.fileSnapshotMeta."), allof("H.SnapshotMeta."), allof("E.uint8."), allof("E.Server."), allof("H.os.File.")
 //@   fresh result0
 //@   ensures  meta_or_error: (result1 == nil) == (result0 != nil)
 //@   ensures  undecodable_metadata_is_an_error: result1 == nil ==> jsonErrors == old(jsonErrors)
@@ -1547,3 +1575,20 @@ package raft
 //@   at call io.Copy#1 assert streams_the_callers_data_after_the_request: arg1 == data && cast(arg0, *bufio.Writer) == conn.w
 //@   at call decodeResponse#1 assert response_read_after_flushing_on_the_same_connection: arg0 == conn && cast(arg1, *InstallSnapshotResponse) == resp
 //@   at call (*netConn).Release#* assert releases_its_own_connection: arg0 == conn
+
+// ---------------------------------------------------------------------------
+// C10/C11/C07: the copy of the configurations handed to the snapshot goroutine and to GetConfiguration
+// pairs each index with its own server list (a snapshot records `committed` as the configuration in force)
+
+//@ spec func sameServers(a Configuration, b Configuration) bool =
+//@   len(a.Servers) == len(b.Servers) && forall k int :: 0 <= k && k < len(a.Servers) ==> a.Servers[k] == b.Servers[k]
+
+//@ func (c *Configuration) Clone
+//@   requires nonnil: c != nil
+//@   ensures  same_servers: sameServers(result, *c)
+//@   ensures  no_alias: len(c.Servers) > 0 ==> isfresh(arrayof(result.Servers))
+
+//@ func (c *configurations) Clone
+//@   requires nonnil: c != nil
+//@   ensures  committed_copied: sameServers(result.committed, c.committed) && result.committedIndex == c.committedIndex
+//@   ensures  latest_copied: sameServers(result.latest, c.latest) && result.latestIndex == c.latestIndex
